@@ -145,6 +145,7 @@ impl Src for Sparse {
 fn method_of(m: u64) -> CompressionMethod {
     match m {
         8 => CompressionMethod::Deflated,
+        93 => CompressionMethod::Zstd,
         _ => CompressionMethod::Stored,
     }
 }
